@@ -384,8 +384,8 @@ class Emitter:
             protos.append(fe.proto() + ';')
             self.meta_funcs.append(n)
         h = ['/* generated by ir2c.py -- do not edit */', '#ifndef IR2C_GEN_H', '#define IR2C_GEN_H', '#include <stdint.h>']
-        h.append('#define GLB_SIZE %d' % max(16, self.glb_size))
-        h.append('#define GLC_SIZE %d' % max(16, self.glc_size))
+        h.append('#define GLB_SIZE %d' % ((max(16, self.glb_size) + 7) // 8 * 8))
+        h.append('#define GLC_SIZE %d' % ((max(16, self.glc_size) + 7) // 8 * 8))
         h.append('#define TLS_BASE UINT64_C(%d)' % self.tls_base)
         h.append('#define TLS_STRIDE UINT64_C(%d)' % self.tls_stride)
         for n, i in self.ti_ids.items():
@@ -404,7 +404,7 @@ class Emitter:
         o.append('/* generated by ir2c.py -- do not edit */')
         o.append('#include "gen.h"')
         o.append('#include "rt.h"')
-        glb = bytearray(max(16, self.glb_size)); glc = bytearray(max(16, self.glc_size))
+        glb = bytearray((max(16, self.glb_size) + 7) // 8 * 8); glc = bytearray((max(16, self.glc_size) + 7) // 8 * 8)
         for n in self.rglobals:
             g = m.globals[n]; kind, off, sz = self.ginfo[n]
             b = bytes(sz) if g.init is None else self.init_bytes(g.ty, g.init)
@@ -414,8 +414,10 @@ class Emitter:
                 for tdx in range(self.nthreads):
                     o2 = self.tls_base - GLB_BASE + tdx * self.tls_stride + off
                     glb[o2:o2+len(b)] = b
-        o.append('uint8_t GLB[GLB_SIZE] = {%s};' % ','.join(str(x) for x in glb))
-        o.append('const uint8_t GLC[GLC_SIZE] = {%s};' % ','.join(str(x) for x in glc))
+        def words(b):
+            return ','.join('UINT64_C(%d)' % int.from_bytes(b[i:i+8], 'little') for i in range(0, len(b), 8))
+        o.append('uint64_t GLB[GLB_SIZE / 8] = {%s};' % words(glb))
+        o.append('const uint64_t GLC[GLC_SIZE / 8] = {%s};' % words(glc))
         o.append('const uint64_t ir_glb_size = GLB_SIZE, ir_glc_size = GLC_SIZE;')
         par = [0] * (len(self.ti_ids) + 1)
         for n, i in self.ti_ids.items():
